@@ -164,6 +164,7 @@ type caseT struct {
 	Level     int         `json:"level,omitempty"`
 	Final     bool        `json:"bfinal_ending,omitempty"` // DEFLATE stream ends with a BFINAL=1 block (RFC 7692 7.2.3.4)
 	Op        int         `json:"op,omitempty"`            // control opcode
+	Via       string      `json:"via,omitempty"`           // control-send: "" = WriteMessage | frame = WriteFrame | close = WriteClose
 	Seg       nbdrive.Seg `json:"seg"`
 	// informational
 	WireHex string `json:"wire_hex,omitempty"`
@@ -484,12 +485,29 @@ func runControlSend(c caseT) {
 	if c.Op == wsref.OpClose && c.Size >= 2 {
 		p = wsref.ClosePayload(1000, string(p[2:]))
 	}
-	err := e.Write(c.Op, p)
+	var err error
+	api := "WriteMessage"
+	switch c.Via {
+	case "frame":
+		// the exported single-frame call is a send path of its own
+		api = "WriteFrame"
+		err = e.Conn.WriteFrame(websocket.MessageType(c.Op), true, true, p)
+	case "close":
+		api = "WriteClose"
+		reason := ""
+		if len(p) > 2 {
+			reason = string(p[2:])
+		}
+		err = e.Conn.WriteClose(1000, reason)
+		p = wsref.ClosePayload(1000, reason)
+	default:
+		err = e.Write(c.Op, p)
+	}
 	run.Eval(1)
 	ok := true
-	if c.Size > 125 {
+	if len(p) > 125 {
 		if err == nil || len(e.Out) > 0 {
-			violate("c15:control-send:over-125-not-refused", fmt.Sprintf("WriteMessage(opcode %d, %d bytes) returned %v and wrote %d bytes", c.Op, c.Size, err, len(e.Out)), c, e.Out, nil)
+			violate("c15:control-send:over-125-not-refused"+map[string]string{"": "", "frame": ":write-frame", "close": ":write-close"}[c.Via], fmt.Sprintf("%s(opcode %d, %d bytes) returned %v and wrote %d bytes", api, c.Op, len(p), err, len(e.Out)), c, e.Out, nil)
 			ok = false
 		} else {
 			run.Count("control_send_refused", 1)
@@ -500,7 +518,7 @@ func runControlSend(c caseT) {
 	} else {
 		fr, rest, derr := e.OutFrames()
 		if err != nil || derr != nil || rest != 0 || len(fr) != 1 || int(fr[0].Opcode) != c.Op || !fr[0].Fin || !bytes.Equal(fr[0].Payload, p) {
-			violate("c15:control-send:within-125-not-sent", fmt.Sprintf("WriteMessage(opcode %d, %d bytes) returned %v; wire decodes to %d frames (rest %d, %v)", c.Op, c.Size, err, len(fr), rest, derr), c, e.Out, nil)
+			violate("c15:control-send:within-125-not-sent", fmt.Sprintf("%s(opcode %d, %d bytes) returned %v; wire decodes to %d frames (rest %d, %v)", api, c.Op, len(p), err, len(fr), rest, derr), c, e.Out, nil)
 			ok = false
 		} else {
 			run.Count("control_send_accepted", 1)
@@ -762,6 +780,12 @@ func main() {
 				for _, size := range []int{0, 1, 2, 124, 125, 126, 127, 128, 1000, 65535, 65536} {
 					for _, client := range []bool{false, true} {
 						step(caseT{Kind: "control-send", L: 1 << 22, Pool: pl, Client: client, Op: op, Size: size}, false)
+						if !(op == wsref.OpClose && size == 1) {
+							step(caseT{Kind: "control-send", L: 1 << 22, Pool: pl, Client: client, Op: op, Size: size, Via: "frame"}, false)
+						}
+						if op == wsref.OpClose && size != 1 {
+							step(caseT{Kind: "control-send", L: 1 << 22, Pool: pl, Client: client, Op: op, Size: size, Via: "close"}, false)
+						}
 						if op == wsref.OpClose && size == 1 {
 							continue // a 1-byte close body is C13's business
 						}
